@@ -28,6 +28,10 @@ def sh(cmd, cwd=None, timeout=1800):
 def main():
     seed = os.path.abspath(sys.argv[1])
     skip_suite = "--skip-suite" in sys.argv
+    phase = "all"
+    for a in sys.argv[2:]:
+        if a.startswith("--phase="):
+            phase = a.split("=", 1)[1]
     only = None
     for a in sys.argv[2:]:
         if a.startswith("--only"):
@@ -35,6 +39,8 @@ def main():
     patch = os.path.join(seed, "patch.diff")
     demo = os.path.join(seed, "demo.py")
     out = {"seed": seed}
+    if phase == "checks":
+        return checks_phase(out, patch, only)
     if not os.path.isdir(WT):
         rc, o = sh(f"git -C {REPO} worktree add -q {WT} HEAD")
         if rc:
@@ -64,6 +70,13 @@ def main():
         out["suite_errors"] = int(e.group(1)) if e else 0
         out["suite_tail"] = o[-300:]
     sh("git checkout -q -- . && git clean -fdq", cwd=WT)
+    if phase == "suite":
+        print(json.dumps(out, indent=1))
+        return 0
+    return checks_phase(out, patch, only)
+
+
+def checks_phase(out, patch, only):
     # --- checks against /repo with the patch applied
     rc, o = sh(f"git -C {REPO} status --porcelain")
     if o.strip():
